@@ -191,6 +191,9 @@ async fn controller(script: Vec<Op>, log: Arc<Log>, all_gates: Gates) {
     let mut futs: BTreeMap<usize, Fut> = BTreeMap::new();
     let mut gates: Vec<Arc<Gate>> = Vec::new();
     let mut script = script;
+    // every other script drops the wrapper from a panicking holder (a function of the script, so
+    // that replays agree)
+    let unwinding_drop = script.len() % 2 == 1;
     // whatever the script says, the wrapper is dropped in the end
     script.push(Op::DropW);
     for op in script {
@@ -291,7 +294,15 @@ async fn controller(script: Vec<Op>, log: Arc<Log>, all_gates: Gates) {
                     log.error("wrapper still shared at drop");
                 }
                 log.action("dropw".into());
-                drop(wr);
+                if unwinding_drop {
+                    // the holder panics: the wrapper is dropped while its thread is unwinding
+                    let _ = std::panic::catch_unwind(std::panic::AssertUnwindSafe(move || {
+                        let _holder = wr;
+                        std::panic::panic_any("holder of the wrapper panics");
+                    }));
+                } else {
+                    drop(wr);
+                }
             }
         }
     }
@@ -441,7 +452,11 @@ fn main() {
     let get = |k: &str| -> Option<String> { args.iter().position(|a| a == k).and_then(|i| args.get(i + 1)).cloned() };
     let mode = args.get(1).map(|s| s.as_str()).unwrap_or("");
     // scripted panics are part of the experiment
-    std::panic::set_hook(Box::new(|_| {}));
+    std::panic::set_hook(Box::new(|i| {
+        if std::env::var("HSYNC_DEBUG").is_ok() {
+            eprintln!("panic: {i}");
+        }
+    }));
     match mode {
         "gen" => {
             let seed: u64 = get("--seed").and_then(|v| v.parse().ok()).unwrap_or(1);
@@ -464,6 +479,53 @@ fn main() {
                     break;
                 }
             }
+        }
+        "asyncstd-check" => {
+            // the second runtime flavour of `deadpool_runtime::Runtime`: creation, interaction
+            // and destruction must run on threads of async-std's
+            // blocking pool (`blocking-N`), never on the thread that awaits / drops or on an
+            // executor thread (`async-std/runtime`)
+            let path = get("--out").expect("--out");
+            let seen: Arc<Mutex<Vec<(String, String)>>> = Arc::default();
+            struct P(Arc<Mutex<Vec<(String, String)>>>);
+            impl Drop for P {
+                fn drop(&mut self) {
+                    self.0.lock().unwrap().push(("destroy".into(), tname()));
+                }
+            }
+            fn tname() -> String {
+                std::thread::current().name().unwrap_or("?").to_string()
+            }
+            let s2 = seen.clone();
+            let caller = async_std::task::block_on(async_std::task::spawn(async move {
+                let me = tname();
+                let s3 = s2.clone();
+                let w = SyncWrapper::new(Runtime::AsyncStd1, move || {
+                    s3.lock().unwrap().push(("create".into(), tname()));
+                    Ok::<_, ()>(P(s3.clone()))
+                })
+                .await
+                .map_err(|_| ())
+                .expect("create");
+                let s3 = s2.clone();
+                let _ = w.interact(move |_| s3.lock().unwrap().push(("interact".into(), tname()))).await;
+                // (a panicking closure is not part of this scenario: async-std hands the panic on
+                // to the awaiting task instead of reporting it, whatever deadpool does)
+                drop(w);
+                for _ in 0..5000 {
+                    if s2.lock().unwrap().iter().any(|e| e.0 == "destroy") {
+                        break;
+                    }
+                    async_std::task::sleep(Duration::from_millis(1)).await;
+                }
+                me
+            }));
+            let ev = seen.lock().unwrap().clone();
+            let ok = ["create", "interact", "destroy"]
+                .iter()
+                .all(|k| ev.iter().any(|e| e.0 == *k && e.1.starts_with("blocking-") && e.1 != caller));
+            let shown: Vec<String> = ev.iter().map(|e| format!("{}@{}", e.0, e.1)).collect();
+            std::fs::write(path, format!("asyncstd caller={} events=[{}] ok={}\n", caller, shown.join(","), ok as u8)).unwrap();
         }
         "replay" => {
             let inp = std::fs::read_to_string(get("--in").expect("--in")).unwrap();
